@@ -16,7 +16,13 @@ def generate(rnd, tier):
     cases = []
     for _ in range(N):
         t = gen_tree(rnd, rnd.choice([1, 2, 2, 3, 3]), lists_only=rnd.random() < 0.5)
-        cases.append(with_cc({"op": "tree", "tree": t, "ops": gen_ops(rnd, 2, 5, tree=t)}))
+        ops = gen_ops(rnd, 2, 5, tree=t)
+        if t[0] == "list" and rnd.random() < 0.4:
+            # the numbering pattern is replaced between two renders
+            k = rnd.randrange(1, len(ops) + 1)
+            ops.insert(k, ["set_kp", rnd.choice([None, ["", ") ", rnd.choice([1, 0, 5, 10])], ["[", "] ", 1], ["", ") ", 1]])])
+            ops.append(["render", ops[-1][1] if ops[-1][0] == "render" else 20])
+        cases.append(with_cc({"op": "tree", "tree": t, "ops": ops}))
     return cases
 
 
@@ -65,7 +71,9 @@ def monitor(case, obs):
         return t
     for o in case["ops"]:
         op, a = o[0], o[1]
-        if op == "add_at":
+        if op == "set_kp":
+            if cur[0] == "list": cur[5] = a
+        elif op == "add_at":
             t = node_at(cur, a)
             if t is not None and t[0] == "window": t[2].append(o[2])
             elif t is not None and t[0] == "list": t[6].append(o[2])
@@ -93,7 +101,7 @@ def outcome(case, obs): return "err" if any("err" in o for o in obs) else "ok"
 def shrink(case):
     ops = case["ops"]
     for i in range(len(ops)):
-        if sum(1 for o in ops[:i] + ops[i + 1:] if o[0] == "render") >= 1:
+        if sum(1 for o in ops[:i] + ops[i + 1:] if o[0] == "render") >= 1 and (ops[i][0] != "render" or i != len(ops) - 1):
             yield with_cc({"op": "tree", "tree": case["tree"], "ops": ops[:i] + ops[i + 1:]})
     t = case["tree"]
     if t[0] in ("list", "window"):
